@@ -186,7 +186,7 @@ CovDbs2(n, nvar) ==
              def \in {DefFull(n, nvar), [s \in 1..n |-> [v \in 1..nvar |-> IF s = n /\ v = nvar THEN 0 ELSE 1]]},
              hz \in BOOLEAN} :
       d.hasZ \/ d.def = DefFull(n, nvar)}
-NbLists(n) == {<<>>, <<1>>, <<n, 1>>, <<2, 3>>}
+NbLists(n) == IF Small THEN {<<>>, <<n, 1>>} ELSE {<<>>, <<1>>, <<n, 1>>, <<2, 3>>}
 CovKeys(models) == UNION {{[model |-> m, db1 |-> d1] : d1 \in CovDbs(3, NVarOf(m))} : m \in {x \in models : NDimOf(x) = 2}}
 \* the symmetric entry point has no jvar0 / nbgh2 argument: keep one representative
 CovCanonical(c) == c.sym => (c.jvar0 = c.ivar0 /\ c.nb2 = <<>>)
